@@ -307,7 +307,11 @@ class ModelCacheMixin:
     def batch_eval(self, asts, n, extra_constraints=(), exact=None):
         results = self._get_batch_solutions(asts, n=n, extra_constraints=extra_constraints)
 
-        if len(results) == n or (len(asts) == 1 and asts[0].hash() in self._eval_exhausted):
+        # the exhausted set only says that the cached models realise every value under the solver's own
+        # constraints; with extra constraints a value may only be reachable through an uncached model
+        if len(results) == n or (
+            len(extra_constraints) == 0 and len(asts) == 1 and asts[0].hash() in self._eval_exhausted
+        ):
             return results
 
         remaining = n - len(results)
@@ -358,10 +362,14 @@ class ModelCacheMixin:
             def signed_key(v):
                 return v if v < 2 ** (len(e) - 1) else v - 2 ** len(e)
 
-            return min(cached, key=signed_key if signed else lambda v: v)
+            # same representation as the backend: a signed query is answered with a signed integer
+            return min(map(signed_key, cached)) if signed else min(cached)
 
         m = super().min(e, extra_constraints=extra_constraints, signed=signed, exact=exact)
-        if len(extra_constraints) == 0:
+        # later queries are answered from the cached models, so only remember the minimum as known if one of
+        # them actually realises it (the backend does not always report such a model, and a reported model is
+        # cut down to the variables that were under this solver's control at that time)
+        if len(extra_constraints) == 0 and m % 2 ** len(e) in self._get_solutions(e, allow_unconstrained=False):
             (self._min_signed_exhausted if signed else self._min_exhausted)[e.hash()] = e
         return m
 
@@ -379,10 +387,10 @@ class ModelCacheMixin:
             def signed_key(v):
                 return v if v < 2 ** (len(e) - 1) else v - 2 ** len(e)
 
-            return max(cached, key=signed_key if signed else lambda v: v)
+            return max(map(signed_key, cached)) if signed else max(cached)
 
         m = super().max(e, extra_constraints=extra_constraints, signed=signed, exact=exact)
-        if len(extra_constraints) == 0:
+        if len(extra_constraints) == 0 and m % 2 ** len(e) in self._get_solutions(e, allow_unconstrained=False):
             (self._max_signed_exhausted if signed else self._max_exhausted)[e.hash()] = e
         return m
 
